@@ -9,11 +9,42 @@ import warnings
 from typing import Optional
 
 KINDS = {"t": "tag", "r": "soup", "s": "str", "c": "pre"}
-OPS = ["ap", "in", "et", "el", "ib", "ia", "rw", "wr", "uw", "ex", "cl", "de", "sm", "ss", "cd"]
+OPS = ["ap", "in", "et", "el", "ib", "ia", "rw", "wr", "uw", "ex", "cl", "de", "sm", "ss", "cd", "se"]
 
 
 class _StrSub(str):
     """a `str` subclass that is not a NavigableString"""
+
+
+def _make_navsub():
+    from bs4.element import NavigableString
+
+    class UserString(NavigableString):
+        """a user's own string class (what `element_classes={NavigableString: UserString}` would create)"""
+    return UserString
+
+
+class _Lazy:
+    def __init__(self):
+        self.c = None
+
+    def __call__(self, *a):
+        if self.c is None:
+            self.c = _make_navsub()
+        return self.c(*a)
+
+
+_NavSub = _Lazy()
+
+
+def plain_string_class(i: int, n: int):
+    """The class of the i-th ordinary string of a world of n objects: NavigableString itself, or one of its subclasses that are NOT
+    PreformattedStrings (Script, Stylesheet, TemplateString, the ruby strings, a user class as `element_classes` would install):
+    all of them are ordinary text to every editing call, in particular to smooth(). A function of the world's shape, so replays repeat it."""
+    from bs4.element import NavigableString, Script, Stylesheet, TemplateString, RubyTextString, RubyParenthesisString
+    if (i * 5 + n) % 4 != 0:
+        return NavigableString
+    return [Script, Stylesheet, TemplateString, RubyTextString, RubyParenthesisString, _NavSub][(i + n) % 6]
 
 
 class World:
@@ -53,7 +84,9 @@ class World:
                 if self.twin:
                     pick(i, ["-"])
             elif k == "s":
-                o = NavigableString(pick(i, ["a.", "a.", "", "b."]) if self.twin else f"{i}.")
+                o = plain_string_class(i, len(kinds))(pick(i, ["a.", "a.", "", "b."]) if self.twin else f"{i}.")
+                if type(o) is not NavigableString:
+                    self.string_subclasses = getattr(self, "string_subclasses", 0) + 1
             else:
                 o = Comment(pick(i, ["c."]) if self.twin else f"{i}.")
             self.register(o, i)
@@ -195,6 +228,18 @@ class World:
                 elif k == "ss":
                     v = f[3] + "."
                     self.objs[f[1]].string = Comment(v) if f[2] == "c" else v
+                elif k == "se":
+                    # `.string = <a string object that is already somewhere in the forest>` (very often the tag's own `.string`): the
+                    # documented effect is the same - contents cleared, ONE NEW string of the argument's class and text; the argument
+                    # itself only moves if it was a child. The new object carries the argument's text, so it is labelled here.
+                    tag, src = self.objs[f[1]], self.objs[f[2]]
+                    known = {id(o) for o in self.objs.values()}
+                    tag.string = src
+                    self.se_used = True
+                    if len(tag.contents) == 1 and isinstance(tag.contents[0], NavigableString) and id(tag.contents[0]) not in known:
+                        self.lab[id(tag.contents[0])] = "s" + f[3]
+                        if type(tag.contents[0]) is not type(src):
+                            return "err:wrong-class"
                 else:
                     raise AssertionError(op)
         except ValueError:
@@ -554,10 +599,11 @@ class Spec:
                         out.append(c)
                 flush()
                 self.kids[t] = out
-        elif k == "ss":
+        elif k in ("ss", "se"):
+            knd = ("c" if f[2] == "c" else "s") if k == "ss" else self.kind[f[2]]
             for e in list(self.kids[f[1]]):
                 self.detach(e)
-            n = self.new_string(f[3], "c" if f[2] == "c" else "s")
+            n = self.new_string(f[3], knd)
             self.splice(f[1], 0, [n])
 
     def subtree(self, e):
@@ -646,7 +692,7 @@ def make_world(rng, parsed: bool):
         elif k == "r":
             o = BeautifulSoup("", "html.parser")
         elif k == "s":
-            o = NavigableString(f"{i}.")
+            o = plain_string_class(i, len(kinds))(f"{i}.")
         else:
             o = Comment(f"{i}.")
         w.register(o, i)
@@ -760,8 +806,23 @@ def gen_op(rng, w: World, stats) -> Optional[str]:
         if k == "de" and attached and rng.random() < 0.4:
             l, o = rng.choice(attached)
             return f"de:{l}"
-        if k == "sm" and tags and not getattr(w, "twin", False):
+        if k == "sm" and tags and not getattr(w, "twin", False) and not getattr(w, "se_used", False):
             return f"sm:{rng.choice(tags)[0]}"
+        if k == "se" and tags and rng.random() < 0.5:
+            from bs4.element import NavigableString
+            l, o = rng.choice(tags)
+            chains = [(l2, o2) for l2, o2 in tags if o2.string is not None and isinstance(o2.contents[0], Tag)]
+            if chains and rng.random() < 0.5:
+                l, o = rng.choice(chains)       # `.string` reaches through a chain of only children
+            own = o.string
+            strs = [(l2, o2) for l2, o2 in objs if isinstance(o2, NavigableString)]
+            if own is not None and w.objs.get(w.label(own)) is own and rng.random() < 0.6:
+                stats["se:own-string"] += 1
+                stats["se:own-string-deeper" if own.parent is not o else "se:own-string-child"] += 1
+                return f"se:{l}:{w.label(own)}:{w.fresh_plain()}"
+            if strs:
+                stats["se:other-string"] += 1
+                return f"se:{l}:{rng.choice(strs)[0]}:{w.fresh_plain()}"
         if k == "ss" and tags and rng.random() < 0.6:
             l, o = rng.choice(tags)
             return f"ss:{l}:{'c' if rng.random() < 0.2 else 's'}:{w.fresh_plain()}"
